@@ -139,6 +139,34 @@ def matches_backtrack(toks, name):
     return go(0, 0)
 
 
+def matches_greedy(toks, name):
+    """Fourth implementation: iterative two-pointer matcher that remembers only the
+    LAST wildcard run as its single backtrack point.  Linear on literal
+    mismatches, so it is the every-evaluation cross-check for LONG pattern lists
+    (hundreds of characters), where the edit-distance DP is only sampled."""
+    i = j = 0
+    n, m = len(name), len(toks)
+    star = -1
+    mark = 0
+    while j < n:
+        if i < m and toks[i] is STAR:
+            star = i
+            mark = j
+            i += 1
+        elif i < m and toks[i] is not STAR and (toks[i] is ANY or toks[i] == name[j]):
+            i += 1
+            j += 1
+        elif star >= 0:
+            mark += 1
+            j = mark
+            i = star + 1
+        else:
+            return False
+    while i < m and toks[i] is STAR:
+        i += 1
+    return i == m
+
+
 def expand(toks, r, alphabet, maxrun=3):
     """A random literal expansion of the pattern (a name it matches)."""
     out = []
@@ -174,6 +202,13 @@ class GlobList(object):
         assert self.legal
         for t in self.toks:
             if matches(t, name):
+                return True
+        return False
+
+    def matches_greedy(self, name):
+        assert self.legal
+        for t in self.toks:
+            if matches_greedy(t, name):
                 return True
         return False
 
